@@ -235,7 +235,7 @@ def replacement_runs(text, dialect, acc, max_runs):
     """One run per visit index: the visitor returns a replacement at visit k; exactly that slot must change."""
     from mindsdb_sql import parse_sql
     from mindsdb_sql.planner.utils import query_traversal
-    from mindsdb_sql.parser.ast import Identifier
+    from mindsdb_sql.parser.ast import Identifier, Constant, NullConstant, Tuple
     out = []
     base = parse_sql(text, dialect)
     nvis = len(record_traversal(base))
@@ -252,7 +252,9 @@ def replacement_runs(text, dialect, acc, max_runs):
             state['i'] += 1
             if state['i'] == k and astnode(node) and state['old'] is None:
                 state['old'] = node
-                state['new'] = Identifier(parts=['REPLACED'])
+                # replacements of several kinds, among them the nodes a truthiness test could take for "nothing" (NULL, 0, '', FALSE)
+                state['new'] = [Identifier(parts=['REPLACED']), NullConstant(), Constant(0), Constant(''), Constant(False),
+                                Constant(None), Tuple([]), Identifier(parts=['REPLACED', 'x'])][k % 8]
                 return state['new']
             return None
         try:
